@@ -201,9 +201,26 @@ func TupleFromKey(tk *openfgav1.TupleKey) Tuple {
 	return t
 }
 
+// PresentButEmpty is the key that stands for "a context was sent and it is empty" (`context: {}`
+// from a client arrives as a Struct whose Fields map is nil); it survives the JSON form of a
+// scenario, which an empty map does not.
+const PresentButEmpty = "_present_but_empty_"
+
 func MustStruct(m map[string]any) *structpb.Struct {
 	if m == nil {
 		return nil
+	}
+	if _, ok := m[PresentButEmpty]; ok {
+		c := map[string]any{}
+		for k, v := range m {
+			if k != PresentButEmpty {
+				c[k] = v
+			}
+		}
+		if len(c) == 0 {
+			return &structpb.Struct{}
+		}
+		m = c
 	}
 	s, err := structpb.NewStruct(normalise(m).(map[string]any))
 	if err != nil {
